@@ -68,7 +68,8 @@ class Ctx:
         return viols
 
     def monitors(self):
-        return MONITOR_PREFIX.get(self.prop, [self.prop + "_"]) + EXTRA.get(self.prop, [])
+        # a certified deadlock of the real code during a scenario defeats whatever that scenario was checking
+        return MONITOR_PREFIX.get(self.prop, [self.prop + "_"]) + EXTRA.get(self.prop, []) + ["C09_Deadlock"]
 
     def add_violation(self, mon, scen, w, file=None):
         self.viols.append({"mon": mon, "scen": scen, "w": w, "file": file, "line": 0})
@@ -467,6 +468,11 @@ def c17(ctx):
     ctx.validate(sorted(glob.glob(os.path.join(out, "sched-*.ndjson"))), module="SchedTrace", cfg="SchedTrace.cfg")
     ctx.distinct.add(("sched-component",))
     files = xfer_traces(ctx, ["il", "il", "basic", "pr", "lossy"], 120, 3000)
+    # a chunk of the kind that was NOT negotiated is a protocol violation wherever its TSN lies (adversary classes *wrong*)
+    out = ctx.scr.mkdir("advkind")
+    ps = L.run_shards(binp, "adversary", out, 8, {"VF_NSHARDS": 8, "VF_ONLY": "wrong"})
+    crash_as_violation(ctx, ps, out, "adversary", "C17_Panic")
+    files += sorted(glob.glob(os.path.join(out, "adversary-*.ndjson")))
     ctx.validate(files)
 
 
@@ -695,6 +701,7 @@ def c03(ctx):
                      "'all byte strings' is sampled, not enumerated (DESIGN section 6)")
 
 
+EXTRA["C08"] = ["C09_NoLeak"]   # a shutdown that leaves goroutines blocked for good
 EXTRA["C14"] = ["C02_Delivered", "C01_ReadNext", "C06_Genuine", "C06_AtMostOnce", "C06_OrderedSubseq"]   # "normal delivery" of a re-opened identifier
 EXTRA["C03"] = ["C01_", "C02_Delivered", "C06_Genuine", "C06_AtMostOnce", "C17_WrongKindAbort"]
 
